@@ -59,7 +59,9 @@ func genC11World(r *rand.Rand, scenario string) *World {
 		// the canary duration has elapsed
 		e.Strategy.Canary = &CanaryDef{Replicas: "1", Duration: "2m", NoRestartsDuration: "1m"}
 	case "setting-change":
-		w.Settings = []*SettingDef{{NS: "ns1", Name: "set0", Ref: "foo", Selector: map[string]string{"zone": "a"}, Container: "main", Cpu: "500m", AgeSec: 10}}
+		w.Settings = []*SettingDef{{NS: "ns1", Name: "set0", Ref: "foo", Selector: map[string]string{"zone": "a"}, Container: "main", Cpu: "500m", AgeSec: 10},
+			// an older setting that selects the same nodes: it loses the conflict, whatever happened before
+			{NS: "ns1", Name: "set1", Ref: "foo", Selector: map[string]string{"zone": "a"}, Container: "main", Cpu: "700m", AgeSec: 40}}
 		w.Extra["c10"] = "1"
 	case "migration":
 		// first deployment that adopts the pods of an old DaemonSet; unrelated pods with the same
@@ -224,6 +226,9 @@ func bodyC11(s *Sim) {
 		_, _ = s.Store.CreateObj(s.W.SpareNodes[0].Object())
 	case "setting-change":
 		for _, st := range s.Store.Settings() {
+			if st.Name != s.W.Settings[0].Name {
+				continue
+			}
 			d := *s.W.Settings[0]
 			d.Cpu = "600m"
 			st.Spec = d.Object().Spec
@@ -288,6 +293,9 @@ func (s *Sim) abstractFinal() string {
 			anns = append(anns, fmt.Sprintf("canary-nodes=%v", e.Status.Canary.Nodes))
 		}
 		parts = append(parts, fmt.Sprintf("eds:%s spec=%s active=%s canary=%v state=%s d%d c%d r%d a%d u%d ann=%v", e.Name, letterOfTpl(&e.Spec.Template), al, e.Status.Canary != nil, e.Status.State, e.Status.Desired, e.Status.Current, e.Status.Ready, e.Status.Available, e.Status.UpToDate, anns))
+	}
+	for _, st := range s.Store.Settings() {
+		parts = append(parts, fmt.Sprintf("setting:%s=%s", st.Name, st.Status.Status))
 	}
 	var ls []string
 	for _, r := range s.Store.ERSs() {
